@@ -357,7 +357,12 @@ def support_case(ctx, rng, idx):
     y = rng.uniform(0.5, 3, size=n)
     p = _gen_scales(rng, n_par)
     kind = ['zero_scale', 'negative_scale', 'bad_output',
-            'bad_observation'][idx // 4 % 4]
+            'bad_observation', 'all_negative',
+            'all_negative_negative_output'][idx // 4 % 6]
+    if kind == 'all_negative_negative_output' and cname not in (
+            'GaussianErrorModel',
+            'ConstantAndMultiplicativeGaussianErrorModel'):
+        kind = 'all_negative'
     if kind in ('bad_output', 'bad_observation') and \
             cname != 'LogNormalErrorModel':
         kind = 'negative_scale'
@@ -366,6 +371,12 @@ def support_case(ctx, rng, idx):
         p[j] = 0.0
     elif kind == 'negative_scale':
         p[j] = -p[j]
+    elif kind.startswith('all_negative'):
+        # every scale parameter negative at once (signs cancel in products;
+        # with negative outputs sigma_base + sigma_rel * output is positive)
+        p = -p
+        if kind == 'all_negative_negative_output':
+            ybar = -ybar * 10
     elif kind == 'bad_observation':
         # a measured value outside the support of the log-normal density
         # (0: below the limit of quantification) has density 0
